@@ -52,6 +52,7 @@ EXTRA = [
     dict(id='dtf_odd2', kind='dtf', biort='near_sym_b', qshift='qshift_b', J=1, H=3, W=3, B=2, C=1),
     dict(id='dti_planar', kind='dti', biort='near_sym_a', qshift='qshift_a', J=2, H=8, W=8, B=1, C=1, view='ri_planar'),
     dict(id='dti_planar_b2', kind='dti', biort='near_sym_b', qshift='qshift_b', J=1, H=4, W=6, B=2, C=2, view='ri_planar'),
+    dict(id='swt_j2', kind='swt', wave='db2', mode='periodization', J=2, H=8, W=8, B=1, C=1),
     dict(id='d2_odd', kind='dwt2f', wave='db2', mode='symmetric', J=2, H=7, W=9, B=2, C=2),
     dict(id='d1_b2', kind='dwt1f', wave='db2', mode='reflect', J=2, N=11, B=2, C=3),
 ]
@@ -59,7 +60,7 @@ BYID = {p['id']: p for p in POOL + EXTRA}
 # (pool id of the target call, overrides giving the earlier call's input size on the same instance)
 SAME = [('d1_db3_sym', dict(N=5, J=2)), ('d1_db3_sym', dict(N=40)), ('d1_coif1_sym', dict(N=7)), ('d2_db2_sym', dict(H=3, W=4)), ('d2_db2_per', dict(H=12, W=5)),
         ('swt_db2', dict(H=8, W=4)), ('dtf_a', dict(H=2, W=2)), ('dtf_a', dict(H=16, W=12)), ('dti_06', dict(H=4, W=4)), ('d2i_db2_zero', dict(H=9, W=5)),
-        ('d1i_bior22_zero', dict(N=6)), ('d1_deep', dict(N=20)), ('d1_deep', dict(N=9)),
+        ('d1i_bior22_zero', dict(N=6)), ('d1_deep', dict(N=20)), ('d1_deep', dict(N=9)), ('swt_j2', dict(H=6, W=6)), ('swt_j2', dict(H=2, W=8)), ('dtf_odd', dict(H=2, W=2)),
         # ... or an input of another precision (rejected or not, it must not leave the instance changed)
         ('d1i_bior22_zero', dict(f32=True)), ('d2i_db2_zero', dict(f32=True)), ('d1_db3_sym', dict(f32=True)), ('d2_db2_sym', dict(f32=True)),
         ('swt_db2', dict(f32=True)), ('dtf_a', dict(f32=True)), ('dti_06', dict(f32=True))]
